@@ -812,6 +812,11 @@ class Fn:
                 for v, b in ts.items():
                     if v in kind:
                         res[kind[v]].append((sb, b))
+                # `if let` / `while let`: the unmatched variant takes the otherwise edge
+                if not self.is_unreachable_block(o):
+                    for v, nm in kind.items():
+                        if v not in ts:
+                            res[nm].append((sb, o))
             else:
                 be = self.bool_edges(sb)
                 if be is None:
